@@ -273,9 +273,9 @@ def subF(st):
 def p_c19(q):
     F = dict(module='MC_RouterF', extra='MirrorExtra', urls='UrlSetF', rt=True)
     if q:
-        return [mc_router('T'), subF(gen_bfs('F', 2, sample=0.25, **F)), gen_bfs('FC', 3, module='MC_RouterF', extra='MirrorExtra'),
+        return [mc_router('T'), subF(gen_bfs('F', 2, sample=0.25, **F)), gen_bfs('FC', 3, module='MC_RouterF', extra='MirrorExtra'), gen_bfs('V', 2, module='MC_RouterF', extra='MirrorExtra', sample=0.5),
                 subF(gen_sim('F', 8, 8, module='MC_RouterF', extra='MirrorExtra'))]
-    return [mc_router('T'), subF(gen_bfs('F', 2, **F)), gen_bfs('FC', 3, module='MC_RouterF', extra='MirrorExtra'), subF(gen_sim('F', 4, 300, name='simF4', seedoff=5, **{k: v for k, v in F.items() if k in ('module', 'extra')})),
+    return [mc_router('T'), subF(gen_bfs('F', 2, **F)), gen_bfs('FC', 3, module='MC_RouterF', extra='MirrorExtra'), gen_bfs('V', 2, module='MC_RouterF', extra='MirrorExtra'), subF(gen_sim('F', 4, 300, name='simF4', seedoff=5, **{k: v for k, v in F.items() if k in ('module', 'extra')})),
             subF(gen_sim('F', 14, 60, module='MC_RouterF', extra='MirrorExtra'))]
 
 
